@@ -9,8 +9,8 @@ from ..terms import A, C, F, V, NIL, term_size, pp as show_term
 
 ID = 'C02'
 LEVEL = 'model_checking'
-RULE = ('every ordered pair (t1,t2) of the term universe (quick: all 152 terms of depth <=1 over variables X,Y,Z, '
-        'atoms a,b,[], constants 1,\'s\', functors f/1 f/2 g/1 ./2; thorough: all terms of depth <=2 with <=5 symbols) '
+RULE = ('every ordered pair (t1,t2) of the term universe (quick: all terms of depth <=1 over variables X,Y,Z, '
+        'atoms a,b,[], Python constants 1, 1000003, \'str\' (passed as equal but distinct objects), functors f/1 f/2 g/1 ./2; thorough: all terms of depth <=2 with <=5 symbols) '
         'x every stack of earlier, still suspended unifications from the menu (quick: 6 stacks; thorough: every '
         'stack of <=2 equations out of 8 that is consistent and acyclic). For each: number of yields, canonical '
         'observation of (X,Y,Z,t1,t2) at the yield vs Robinson unification (mgu up to renaming incl. aliasing), both '
@@ -25,12 +25,12 @@ a, b = A('a'), A('b')
 
 
 def bounds(tier):
-    return {'universe': 'depth<=1 (152 terms)' if tier == 'quick' else 'depth<=2, <=5 symbols',
+    return {'universe': 'depth<=1 (%d terms)' % len(universe('quick')) if tier == 'quick' else 'depth<=2, <=5 symbols',
             'stacks': len(stacks(tier))}
 
 
 def universe(tier):
-    base = [X, Y, Z, a, b, NIL, C(1), C('s')]
+    base = [X, Y, Z, a, b, NIL, C(1), C('str'), C(1000003)]
     d1 = list(base)
     d1 += [F('f', t) for t in base]
     d1 += [F('f', t, u) for t in base for u in base]
